@@ -214,28 +214,77 @@ Proof.
     apply good_dir_join; [apply cache_dir_good | apply prefixb_noslash, (name_ok _ Hd)].
 Qed.
 
-Definition MCP_SID : str := firstn (length SL_MCP_CACHE_NAME - length SL_CACHE_SUFFIX) SL_MCP_CACHE_NAME.
-
 Lemma mcp_path_eq base : mcp_cache_path base = cache_dir base ++ slash :: SL_MCP_CACHE_NAME.
 Proof. unfold mcp_cache_path. apply good_dir_join; [apply cache_dir_good | vm_compute; reflexivity]. Qed.
 
-Lemma mcp_alias base pid :
-  get_cache_path base (JStr MCP_SID) = Some (mcp_cache_path base) /\ tmp_of pid (mcp_cache_path base) = mcp_tmp base pid.
+(* the MCP cache's name is not of the shape of an entry name: no session id maps to it *)
+Lemma mcp_no_alias base sid p : get_cache_path base sid = Some p -> p <> mcp_cache_path base.
 Proof.
-  split; [|reflexivity].
-  destruct (get_cache_path base (JStr MCP_SID)) as [p|] eqn:E; [|vm_compute in E; discriminate].
-  rewrite (cache_path_name _ _ _ E), mcp_path_eq. do 3 f_equal.
+  intros H E. destruct (cache_path_shape _ _ _ H) as [n [-> [_ [_ [_ Hsuf]]]]].
+  rewrite mcp_path_eq in E. apply app_inv_head in E. injection E as ->.
+  vm_compute in Hsuf. discriminate.
 Qed.
 
-Lemma mcp_alias_only base sid : get_cache_path base sid = Some (mcp_cache_path base) -> sid = JStr MCP_SID.
+(* digit strings followed by a "." are determined by the whole *)
+Lemma digits_prefix a b x y :
+  Forall (fun c => 48 <= c <= 57) a -> Forall (fun c => 48 <= c <= 57) b ->
+  a ++ 46 :: x = b ++ 46 :: y -> a = b /\ x = y.
 Proof.
-  intro H. pose proof (cache_path_name _ _ _ H) as E. rewrite mcp_path_eq in E.
-  apply app_inv_head in E. injection E as E.
-  unfold get_cache_path in H. unfold sid_name in E. destruct (truthy sid).
-  - destruct sid as [| | |s| |]; try discriminate. f_equal.
-    assert (Hm : SL_MCP_CACHE_NAME = MCP_SID ++ SL_CACHE_SUFFIX) by (vm_compute; reflexivity).
-    rewrite Hm in E. apply app_inv_tail in E. symmetry in E.
-    apply (replace_ch_id SL_SID_FROM SL_SID_TO); [|exact E].
-    vm_compute. intuition discriminate.
-  - vm_compute in E. discriminate.
+  revert b. induction a as [|c a IH]; intros [|d b] Ha Hb E; cbn [app] in E.
+  - injection E as ->. auto.
+  - injection E as <- _. inversion Hb as [|? ? Hd _]. lia.
+  - injection E as -> _. inversion Ha as [|? ? Hc _]. lia.
+  - injection E as -> E. inversion Ha; inversion Hb; subst.
+    destruct (IH b) as [-> ->]; auto.
+Qed.
+
+(* ... and neither does the tmp.<pid> file of any session coincide with the file the refresh pipeline
+   redirects into (whatever the two pids), nor with the MCP cache, nor an entry with that tmp file *)
+Lemma mcp_tmp_no_alias base pid pid' sid p : digits pid -> digits pid' -> get_cache_path base sid = Some p ->
+  tmp_of pid p <> mcp_tmp base pid' /\ tmp_of pid p <> mcp_cache_path base /\ p <> mcp_tmp base pid'.
+Proof.
+  intros [Hne Hd] [Hne' Hd'] H.
+  destruct (cache_path_shape _ _ _ H) as [n [-> [Hns [_ [_ Hsuf]]]]].
+  unfold tmp_of, mcp_tmp. rewrite mcp_path_eq.
+  assert (Hi : exists i, rev SL_TMP_INFIX = 46 :: i) by (eexists; vm_compute; reflexivity).
+  assert (Hi' : rev SL_MCP_TMP_INFIX = rev SL_TMP_INFIX) by (vm_compute; reflexivity).
+  destruct Hi as [i Hi].
+  assert (Hm : suffixb SL_CACHE_SUFFIX SL_MCP_CACHE_NAME = false) by (vm_compute; reflexivity).
+  assert (Hl1 : ~ (last SL_MCP_CACHE_NAME 0 <= 57)) by (vm_compute; intro A; apply A; reflexivity).
+  assert (Hl2 : ~ (last SL_CACHE_SUFFIX 0 <= 57)) by (vm_compute; intro A; apply A; reflexivity).
+  assert (Hs0 : SL_CACHE_SUFFIX <> []) by (vm_compute; discriminate).
+  remember SL_TMP_INFIX as I1. remember SL_MCP_TMP_INFIX as I2. remember SL_MCP_CACHE_NAME as M. remember SL_CACHE_SUFFIX as S.
+  repeat split; intro E; rewrite <- !app_assoc in E; apply app_inv_head in E; injection E as E.
+  - apply (f_equal (@rev N)) in E. rewrite !rev_app_distr, Hi', Hi in E. rewrite <- !app_assoc in E. cbn [app] in E.
+    apply digits_prefix in E as [_ E]; [|apply Forall_rev; assumption|apply Forall_rev; assumption].
+    apply app_inv_head in E. apply (f_equal (@rev N)) in E. rewrite !rev_involutive in E. subst n.
+    congruence.
+  - (* a tmp name ends with a digit, the MCP cache name does not *)
+    apply (f_equal (fun l => last l 0)) in E. rewrite app_assoc, last_app_ne in E by assumption.
+    assert (Hdig : 48 <= last pid 0 <= 57).
+    { destruct (exists_last Hne) as [x [c ->]]. rewrite last_app_ne by discriminate. cbn [last].
+      rewrite Forall_forall in Hd. apply Hd. rewrite in_app_iff. right. left. reflexivity. }
+    rewrite E in Hdig. apply Hl1, Hdig.
+  - (* an entry ends with the suffix, the pipeline's tmp with a digit *)
+    apply (f_equal (fun l => last l 0)) in E. rewrite (app_assoc M), last_app_ne in E by assumption.
+    assert (Hdig : 48 <= last pid' 0 <= 57).
+    { destruct (exists_last Hne') as [x [c ->]]. rewrite last_app_ne by discriminate. cbn [last].
+      rewrite Forall_forall in Hd'. apply Hd'. rewrite in_app_iff. right. left. reflexivity. }
+    unfold suffixb in Hsuf. apply prefixb_spec in Hsuf as [r Hr].
+    apply (f_equal (@rev N)) in Hr. rewrite rev_involutive, rev_app_distr, rev_involutive in Hr.
+    rewrite Hr in E. rewrite last_app_ne in E by assumption.
+    rewrite <- E in Hdig. apply Hl2, Hdig.
+Qed.
+
+(* Legacy (before b2d8f58 the MCP cache was called "mcp.cache"): session id "mcp" was mapped onto it, and its
+   tmp.<pid> onto the pipeline's *)
+Lemma mcp_alias_legacy base pid :
+  get_cache_path base (JStr $"mcp") = Some (path_join (cache_dir base) $"mcp.cache") /\
+  tmp_of pid (path_join (cache_dir base) $"mcp.cache") = path_join (cache_dir base) $"mcp.cache" ++ SL_MCP_TMP_INFIX ++ pid.
+Proof.
+  split; [|reflexivity].
+  destruct (get_cache_path base (JStr $"mcp")) as [p|] eqn:E; [|vm_compute in E; discriminate].
+  rewrite (cache_path_name _ _ _ E).
+  rewrite good_dir_join by (auto using cache_dir_good; vm_compute; reflexivity).
+  do 3 f_equal.
 Qed.
